@@ -159,7 +159,23 @@ def _walk(ctx, args):
     return None
 
 
-CHECKS = {'ctor_fresh': __import__('props.C17', fromlist=['c_ctor_fresh']).c_ctor_fresh, 'walk': c_walk}
+def c_circuit_state(ctx, args):
+    """a state sent through a circuit -- gate by gate, layer-compiled or compiled -- is the state the gates produce one at a time, and is valid"""
+    from props.C09 import c_prog_seq
+    r = c_prog_seq(ctx, args)
+    if r:
+        return r
+    from props.C09 import run_impl
+    from vlib import states as S_
+    cls, N, prog, t, mode, variant, obj = args
+    got, _ = run_impl(cls, N, prog, t, mode, variant, obj)
+    inv = S_.tableau_invariant_py(got)
+    if inv:
+        return {'kind': 'oracle', 'where': 'np:state after a %s (mode %d) breaks the tableau invariant: %s' % (cls, mode, inv), 'observed': str(got)[:400], 'expected': 'a valid tableau', 'tags': ['circuit_state']}
+    return None
+
+
+CHECKS = {'circuit_state': c_circuit_state, 'ctor_fresh': __import__('props.C17', fromlist=['c_ctor_fresh']).c_ctor_fresh, 'walk': c_walk}
 
 
 def rstep(ctx, rng, N, pure_hint):
@@ -206,6 +222,13 @@ def run(ctx):
             for use in ('flip', 'library'):
                 for _ in range(max(2, int(2 * B))):
                     do(ctx, 'ctor_fresh', [be, what, rng.randint(1, 4), rng.randrange(10 ** 6), use], nontrivial=('cf', be, what, use, ctx.res.evaluations))
+    # states through whole circuits, small registers and registers beyond one machine word (gates next to the word boundaries)
+    for it in range(int(24 * B)):
+        N = [2, 3, 5, 9, 65, 66][it % 6]
+        pool = gen.edge_pool(N) if N > 9 else range(N)
+        prog = [[0, gen.rgate(rng, ctx.model, N, kinds=('gen', 'named', 'fwd'), pool=pool)] for _ in range(rng.randint(3, 8))]
+        t = gen.rtableau(rng, ctx.model, N, depth=None if N <= 9 else 3)
+        do(ctx, 'circuit_state', [rng.choice(['CliffordCircuit', 'Circuit']), N, prog, t, it % 3, 'orig', 'state'], nontrivial=('cs', it))
     nwalks = int(150 * B)
     steps = 25 if ctx.tier == 'quick' else 120
     for it in range(nwalks):
